@@ -188,6 +188,7 @@ func (w *World) atYield(point string) {
 			// the main loop is busy (slow to come back to its select): callers of the API block meanwhile; the harness
 			// hands it nothing but UpdateState calls until it is released (see forceReleaseMain)
 			n.mainParked = g
+			g.midEvent = w.stimNode == n || w.stimNode == nil && w.stimAny
 			w.probe("main-loop-parked")
 		}
 		w.ev("yield-park n%d %s at %s", n.idx, info.role, point)
